@@ -569,6 +569,28 @@ func runC09(e *Env) {
 	add("debug", "fail", "C[1]{bpm=0}", "text", "conv", "syllable", "--debug")
 	add("debug", "ok", c09ValidDoc, "write", "--debug")
 	add("debug", "ok", textSeeds[0].text, "text", "conv", "syllable", "--debug")
+	// very large numbers wherever a number can be written
+	for _, n := range []string{"4294967295", "4294967296", "50000000", "99999999999999", "18446744073709551615", "18446744073709551616", "99999999999999999999999"} {
+		add("huge-number", "any", n+"[1]", "text", "conv", "degree")
+		add("huge-number", "any", n+"[1]", "text", "parse")
+		add("huge-number", "any", "1/"+n+"[1]", "text", "conv", "degree")
+		add("huge-number", "any", "1["+n+"]", "text", "conv", "degree")
+		add("huge-number", "any", "1[1/"+n+"]", "text", "conv", "degree")
+		add("huge-number", "any", "C["+n+"/"+n+"]", "text", "conv", "syllable")
+		add("huge-number", "any", "C[1]{bpm="+n+"}", "text", "conv", "syllable")
+		add("huge-number", "any", "C[1]{mtr="+n+"/4}", "text", "conv", "syllable")
+		add("huge-number", "any", "- chord:\n    degree: \""+n+"\"\n    name: \"\"\n  values:\n    - \"1\"\n", "write")
+		add("huge-number", "any", "- chord:\n    degree: \"1\"\n    name: \"\"\n    base: \"b"+n+"\"\n  values:\n    - \"1\"\n", "write")
+		add("huge-number", "any", "- values:\n    - \""+n+"\"\n  bpm: "+n+"\n", "write")
+		add("huge-number", "any", "- values:\n    - \"1\"\n  meter: \""+n+"/"+n+"\"\n", "write", "event")
+		add("huge-number", "any", c09ValidDoc, "write", "--bpm", n)
+		add("huge-number", "any", c09ValidDoc, "write", "--track", n)
+		add("huge-number", "any", c09ValidDoc, "write", "--program", n)
+		cases = append(cases, c09Case{Label: "huge-number", Args: []string{"info", "attr", "describe", "-t", "X", "--attr", "{DIR}/a.yml"}, Files: map[string]string{"a.yml": "- name: X\n  degree: \"" + n + "\"\n"}, Expect: "any"})
+	}
+	for _, d := range []string{"0", "1", "2", "21", "1000", "100000"} {
+		add("huge-number", "any", "", "gen", "attr", "-d", d)
+	}
 	// baseline: the valid invocations themselves must succeed
 	add("valid", "ok", c09ValidDoc, "write")
 	add("valid", "ok", c09ValidDoc, "write", "event")
